@@ -5,6 +5,9 @@
 
 #include "support/NotCopyable.h"
 #include "util/TimeUtilityFunctions.h"  // for MUSCLE_TIME_NEVER
+#ifdef MUSCLE_VERIF_HOOKS
+# include "support/VerifSimHooks.h"
+#endif
 
 #ifdef MUSCLE_SINGLE_THREAD_ONLY
 # error "You're not allowed use the WaitCondition class if you have the MUSCLE_SINGLE_THREAD_ONLY compiler constant defined!"
@@ -188,6 +191,9 @@ private:
    status_t WaitAux(uint32 & retNotificationsCount) const
    {
       status_t ret;
+#ifdef MUSCLE_VERIF_HOOKS
+      if ((g_muscleVerifSim)&&(g_muscleVerifSim->condWait)) {(void) g_muscleVerifSim->condWait(this, &_pendingNotificationsCount, MUSCLE_TIME_NEVER); FlushNotificationsCount(retNotificationsCount); return ret;}
+#endif
 #if !defined(MUSCLE_AVOID_CPLUSPLUS11)
       std::unique_lock<std::mutex> lockGuard(_conditionMutex);
       _conditionVariable.wait(lockGuard, [this]{return (_pendingNotificationsCount>0);});
@@ -240,6 +246,10 @@ private:
    {
       int64 timeDeltaMicros = (int64) (wakeupTime-GetRunTime64());  // how far in the future the wakeup-time is, in microseconds
       if (timeDeltaMicros <= 0) return B_TIMED_OUT;
+
+#ifdef MUSCLE_VERIF_HOOKS
+      if ((g_muscleVerifSim)&&(g_muscleVerifSim->condWait)) {if (g_muscleVerifSim->condWait(this, &_pendingNotificationsCount, wakeupTime) == false) return B_TIMED_OUT; FlushNotificationsCount(retNotificationsCount); return B_NO_ERROR;}
+#endif
 
       status_t ret;
 #if !defined(MUSCLE_AVOID_CPLUSPLUS11)
@@ -310,6 +320,10 @@ private:
    status_t NotifyAux(uint32 increaseBy) const
    {
       if (increaseBy == 0) return B_NO_ERROR;  // no point waking everyone up for a no-op
+
+#ifdef MUSCLE_VERIF_HOOKS
+      if ((g_muscleVerifSim)&&(g_muscleVerifSim->condNotify)) {if (g_muscleVerifSim->yield) g_muscleVerifSim->yield(MUSCLE_VERIF_YIELD_PRENOTIFY, this); IncreaseNotificationsCount(increaseBy); g_muscleVerifSim->condNotify(this); return B_NO_ERROR;}
+#endif
 
       status_t ret;
 
